@@ -225,3 +225,99 @@ func innerMapID(inner ssa.Value, f *ssa.Function, depth int) string {
 	}
 	return "?"
 }
+
+// ruleC13DecodeIntoFresh: rows are decoded into a fresh zero value. encoding/json and the DynamoDB attribute decoders
+// leave fields that are absent from the input (omitempty: Revoked, ParentKeyMeta) untouched, so a reused target (pooled,
+// global, or passed in) makes a record come back with another record's flags and parent.
+func ruleC13DecodeIntoFresh(c *Ctx) {
+	u := c.U1
+	c.rule("C13.decode-into-fresh", "every json.Unmarshal / dynamodbattribute.Unmarshal* / attributevalue.Unmarshal* in the metastore back ends (and the KMS envelope decoders) decodes into a variable allocated in the same call (a local or new(T)), never into a pooled, global or caller-supplied object: absent omitempty fields would otherwise keep stale values", 4)
+	n := 0
+	for _, f := range u.RepoFuncs {
+		if f.Pkg == nil || f.Blocks == nil {
+			continue
+		}
+		pp := f.Pkg.Pkg.Path()
+		if pp != pkgPersist && pp != pkgDynV1 && pp != pkgDynV2 && pp != pkgKmsV1 && pp != pkgKmsV2 {
+			continue
+		}
+		allInstrs(f, func(i ssa.Instruction) {
+			cv, ok := i.(*ssa.Call)
+			if !ok {
+				return
+			}
+			g := staticCallee(cv)
+			if g == nil || g.Pkg == nil || !strings.HasPrefix(g.Name(), "Unmarshal") {
+				return
+			}
+			gp := g.Pkg.Pkg.Path()
+			if gp != "encoding/json" && !strings.HasSuffix(gp, "/dynamodbattribute") && !strings.HasSuffix(gp, "/attributevalue") {
+				return
+			}
+			if len(cv.Call.Args) < 2 {
+				return
+			}
+			n++
+			c.FuncsAnalysed[shortName(f)] = true
+			target := unwrapIface(cv.Call.Args[1])
+			fresh := false
+			switch x := target.(type) {
+			case *ssa.Alloc:
+				fresh = x.Parent() == f // &local or new(T) in this very function
+				// and nothing was stored into it before the decode other than zero-initialisation
+				for _, r := range *x.Referrers() {
+					if st, isS := r.(*ssa.Store); isS && st.Addr == ssa.Value(x) && instrDominates(st, cv) {
+						if !isNilConst(strip(st.Val)) {
+							if _, isAlloc := st.Val.(*ssa.Alloc); !isAlloc {
+								fresh = false
+							}
+						}
+					}
+				}
+			}
+			c.check(fresh, trimPkgDirs(shortName(f))+"/"+g.Name()+"-target", u.ipos(i), "decodes into a variable allocated in this call", "the decode target is not a fresh variable of this call ("+describeOperand(target)+"): fields absent from the stored JSON/attributes (Revoked, ParentKeyMeta are omitempty) keep whatever the reused object held — a record can come back revoked, or with another key's parent")
+		})
+	}
+	if n < 4 {
+		c.bad("decoders", "", fmt.Sprintf("expected at least 4 decode sites in the back ends, found %d", n))
+	}
+}
+
+// ruleC13MemoryLatestByKey: MemoryMetastore.LoadLatest orders by the creation stamps the records were stored under (the
+// inner map's keys), never by a field of the stored records.
+func ruleC13MemoryLatestByKey(c *Ctx) {
+	u := c.U1
+	c.rule("C13.memory-latest-by-key", "MemoryMetastore.LoadLatest: no ordering comparison reads a field of a stored *EnvelopeKeyRecord; the latest record is chosen by the map keys (the created values given to Store)", 1)
+	n := u.Named(pkgPersist, "MemoryMetastore")
+	var f *ssa.Function
+	if n != nil {
+		f = u.MethodOf(n, "LoadLatest")
+	}
+	if f == nil {
+		c.unresolved("MemoryMetastore.LoadLatest", "method")
+		return
+	}
+	bad := ""
+	cmp := 0
+	for _, g := range withAnon(f) {
+		c.FuncsAnalysed[shortName(g)] = true
+		allInstrs(g, func(i ssa.Instruction) {
+			bo, ok := i.(*ssa.BinOp)
+			if !ok {
+				return
+			}
+			switch bo.Op {
+			case token.LSS, token.LEQ, token.GTR, token.GEQ:
+			default:
+				return
+			}
+			cmp++
+			for _, o := range []ssa.Value{bo.X, bo.Y} {
+				if base, fld, isF := fieldAccess(resolve(o)); isF && typeIsNamed(base.Type(), pkgApp, "EnvelopeKeyRecord") {
+					bad = "the ordering comparison at " + u.ipos(i) + " reads field " + fld + " of a stored record instead of the key it is stored under"
+				}
+			}
+		})
+	}
+	c.check(bad == "" && cmp > 0, "persistence.MemoryMetastore.LoadLatest/ordering", u.pos(f.Pos()), "ordered by the stored creation keys", bad+" (a record whose own Created differs from its (id, created) key — zero, or copied — is ranked wrongly and an older key is returned as the latest)")
+}
